@@ -74,7 +74,7 @@ impl Scenario for BusHistory {
         "bus_history"
     }
     fn quick_runs(&self, _f: &str) -> u64 {
-        4800
+        7200
     }
     fn chunk(&self) -> u64 {
         100
